@@ -230,7 +230,7 @@ func c03TruthTable(r *vf.Run) {
 				}
 			}
 		} else {
-			n := 60000
+			n := 150000
 			for k := 0; k < n; k++ {
 				a, b := rng.Intn(len(pool1)), rng.Intn(len(pool1))
 				switch rng.Intn(8) {
@@ -361,7 +361,7 @@ func c03Queries(rng *rand.Rand, ds *gen.Dataset, n int) []seqQuery {
 }
 
 func c03Sequences(r *vf.Run) {
-	nds := r.Pick(16, 60)
+	nds := r.Pick(40, 120)
 	var ids []string
 	for i := 0; i < nds; i++ {
 		ids = append(ids, fmt.Sprintf("seq%02d", i))
